@@ -685,7 +685,13 @@ var epochCounter int
 func (c *Ctx) havocAll(ms *MemState) {
 	epochCounter++
 	ms.epoch = epochCounter
-	ms.m = map[string]Term{}
+	keep := map[string]Term{}
+	for k, v := range ms.m {
+		if strings.HasPrefix(k, "Mghost ") {
+			keep[k] = v // ghost counters are not memory: callees cannot change them
+		}
+	}
+	ms.m = keep
 	ms.w = map[string][]memWrite{}
 	ms.wtop = map[string]Term{}
 }
